@@ -38,7 +38,7 @@ import time
 HERE = os.path.dirname(os.path.abspath(__file__))
 VERIF = os.path.dirname(HERE)
 REPO = os.environ.get("VERIF_REPO", "/repo")
-KANI_DIR = os.path.join(VERIF, "kani")
+KANI_DIR = os.environ.get("VERIF_KANI_DIR", os.path.join(VERIF, "kani"))  # override only for harness development
 CACHE = os.path.join(VERIF, ".cache")
 # VERIF_EVID / VERIF_REPO let the seeded-regression runner point the same checks at a
 # scratch worktree without touching /repo or the committed evidence files.
@@ -389,10 +389,13 @@ def check(prop, tier, only, jobs, seed):
         return 2
     # VERIF_SEED only permutes scheduling order; the decision has no randomness.
     hs.sort(key=lambda h: hashlib.sha256(f"{seed}:{h['name']}".encode()).hexdigest())
-    default_to = 300 if tier == "quick" else 2400
+    default_to = 600 if tier == "quick" else 2400
 
     timeout_s = max(int(h.get("timeout", default_to)) for h in hs)
     jobs = max(1, min(jobs, len(hs)))
+    if any(h.get("mem") == "high" for h in hs):
+        # harnesses annotated `mem: high` need 12-16 GB of CBMC address space each
+        jobs = min(jobs, 3)
     mem_gb = float(os.environ.get("VERIF_MEM_GB", min(28.0, 56.0 / jobs)))
     tdir = target_dir(prop)
     json_out = os.path.join(EVID, "logs", f"{prop}-{tier}-kani.json")
